@@ -365,6 +365,18 @@ def stepIndicator (d : Drv) (line : String) : Drv × Option String :=
             let i := { i with sigHold := if !finite then hold else i.sigHold - 1 }
             let i := if so.borderline then { i with cmpVals := false, cmpSigs := false } else i
             let tag (m : String) := kindTag i ++ ":" ++ (m.splitOn " ").headD ""
+            -- a `p/√q` value whose excess over its interval is inside the hull its own allowances permit (it agrees with the
+            -- exact value, which is in range by C12_trend_strength_range) respects the range "up to the rounding allowance"
+            let rbad : Option String := match rbad with
+              | some m =>
+                let slot := ((m.drop 1).toString.takeWhile Char.isDigit).toString.toNat?.getD 0
+                (match so.vals[slot]?, vt[slot]? with
+                 | some (VExp.sqrtQuot num den κn κd), some tok =>
+                   let aD := ctx.allow (κd * ctx.M * ctx.M)
+                   if den > 2 * aD && (match cmpV ctx flat (VExp.sqrtQuot num den κn κd) tok rv with | .ok => true | _ => false)
+                   then none else some m
+                 | _, _ => some m)
+              | none => none
             if so.borderline then ({ d with cs := .ind i, exempt := d.exempt + 1 }, none)
             else match rbad, vbad, sbad with
             | some m, _, _ =>
